@@ -54,7 +54,7 @@ func init() {
 		Rule: "part 1: seeded base items of the five turnstone action types and skyway batches (1-100 txs); for each base item every field reachable by reflection x every alternative value (>= 8 per scalar field, hostile ones included) as single-field mutants, plus 2-4-field mutants; " +
 			"a pair is non-trivial when the independently encoded delivered call (public compass ABI + deployment id where the contract's scheme has it) differs; distinct_nontrivial = distinct (kind, delivered(base), delivered(mutant)) triples; " +
 			"evaluations = non-trivial pairs whose signing bytes were compared + code-classified (VerifyAgainstTX) pairs + global collision look-ups + id observations checked against the high-water mark. " +
-			"part 2: seeded ABCI histories of the real app over 2-3 EVM chains (jobs, snapshot changes, gas estimates with fee attachment, evidence/removal, pruning, scheduled balance/reference-block messages, chain removal and re-addition through governance)",
+			"part 2: seeded ABCI histories of the real app over 2-3 EVM chains (jobs, snapshot changes, gas estimates with fee attachment, evidence/removal, pruning, scheduled balance/reference-block messages, chain removal and re-addition through governance), interleaved with direct calls of the consensus keeper's public queue API (PutMessageInQueue with MsgIDToReplace = a live id of the queue / a just-removed id / a long-gone id / an id living in another chain's queue / a never-issued id; DeleteJob), each on a cache context written back only on success",
 		Assumptions: []string{
 			"keccak256 collision resistance; pairs are sampled, not exhaustive",
 			"values that are equal as delivered are not changes: address spellings normalised by HexToAddress, gas estimate 0 is delivered as 300000, missing fees are delivered as 100000 each, a deployment id is the bytes32 the contract stores",
@@ -65,7 +65,7 @@ func init() {
 		Exhaustive:  func(string) bool { return false },
 		Cases:       cases,
 		Run:         run,
-		MinCounters: []string{"pairs_delivered_changed", "calibration_ok", "pairs/Batch", "ids_issued", "ids_replaced_in_place", "ids_removed"},
+		MinCounters: []string{"pairs_delivered_changed", "calibration_ok", "pairs/Batch", "ids_issued", "ids_replaced_in_place", "ids_removed", "api/replace_live", "api/replace_removed", "api/replace_foreign", "api/replace_future"},
 		TimeoutS:    2400,
 	})
 }
